@@ -318,8 +318,8 @@ fn gen_script(rng: &mut Rng, victim_server: bool, hostile_rate: f64) -> Script {
 }
 
 pub fn run(ctx: Ctx) -> Report {
-    let n = ctx.tier.pick(1600, 60_000);
-    let n_mux = ctx.tier.pick(160, 6000);
+    let n = ctx.tier.pick(6400, 160_000);
+    let n_mux = ctx.tier.pick(480, 16_000);
     run::run_sharded("C02", ctx.shards, move |shard, nshards, rep| {
         let mut rng = Rng::new(ctx.seed.wrapping_mul(211).wrapping_add(shard as u64) ^ 0xC02);
         // (1) hostile-frame scripts, random
